@@ -91,6 +91,9 @@ def special_pairs():
         # paths went through a cache that identifies 1.0, 1 and True)
         ({1.0: (1, 2)}, {1.0: (1, 3)}), ([0, (1, 2)], [0, (1, 3)]), ({True: (5, 6)}, {True: (5, 7)}), ({1: (1, 2), 'k': [0, (4, 5)]}, {1: (9, 2), 'k': [0, (4, 6)]}),
         ({0.0: [(1, 2)], False: 1}, {0.0: [(1, 3)], False: 1}), ([(1, 2), 0], [(1, 3), 0]),
+        # tuples as dictionary keys next to int keys and list indexes that spell the same path when a tuple is rendered item by item (finding F64)
+        ({(1, 2): 5, 1: [0, 0, 7]}, {(1, 2): 6, 1: [0, 0, 7]}), ({(0,): 'a', 0: 'b'}, {(0,): 'c', 0: 'b'}), ([{(1, 1): [1]}, [0, [2]]], [{(1, 1): [1, 2]}, [0, [2]]]),
+        ({(): {'k': 1}}, {(): {'k': 2}, (4,): 0}), ({(1, (2, 3)): 1}, {(1, (2, 3)): 2}),
         # a leaf changes type and the constructor of the new type fails on the old value in an unusual way (InvalidOperation, OverflowError, AttributeError)
         ({'a': 'abc', 'n': 1}, {'a': _dc.Decimal('1.5'), 'n': 1}), (['x y'], [_dc.Decimal('2')]), ({'a': float('inf')}, {'a': 5}), ([float('-inf'), 1], [7, 1]),
         ({'a': 10 ** 400}, {'a': 1.5}), ({'a': 3}, {'a': _uuid.UUID(int=3)}), ([5, 'k'], [_uuid.UUID(int=5), 'k']), ({'a': None}, {'a': _dc.Decimal('0')}), ({'a': [1]}, {'a': _dc.Decimal('1')}),
@@ -246,6 +249,7 @@ def run(ctx, impl_only=False):
         u = gt.edits(t, ctx.rng.randint(1, 3))
         w = ctx.rng.choice([lambda x: x, lambda x: [x, 0], lambda x: {'t': x}])
         pairs.append((w(t), w(u)))
+    pairs += FAM.hostile_pairs(ctx, n // 3)        # hostile keys, edge-case leaves, shared sub-objects
     pairs += FAM.rich_pairs(ctx, n // 3)           # Decimal, bytes, aware datetimes, date, time, timedelta, UUID, complex, frozenset leaves
     pairs += flat_dict_pairs(ctx, n // 2)          # the domain of C01_flat_dict_roundtrip
     pairs += nested_dict_pairs(ctx, n // 2)        # the domain of C01_nested_dict_roundtrip
